@@ -7,7 +7,7 @@
    socket.error). *)
 From PM.theories Require Import Base Ladder Frontends CorrFrontends.
 From PM.Generated Require Import GenFrontends.
-From PM.proofs Require Import Frontends_proofs.
+From PM.proofs Require Import Frontends_proofs FrontendsC12_proofs.
 Open Scope list_scope.
 Open Scope Z_scope.
 
